@@ -51,14 +51,23 @@ def check_swap(facts, path):
     ft = fn_terms(facts, path)
     rbs = ft.return_blocks()
     hits = 0
-    for (b, pos, pl, rv) in ft.stores:
+    writes = list(ft.stores)
+    for b_ in sorted(ft.cfg.reach):
+        for i_, st_ in enumerate(ft.blocks[b_]["stmts"]):
+            if st_["k"] == "assign" and st_["place"]["proj"] and st_["place"]["proj"][0]["k"] != "deref" and st_["place"]["proj"][-1]["k"] == "index":
+                writes.append((b_, i_, st_["place"], st_["rv"]))      # element of a local array written in place
+    for (b, pos, pl, rv) in writes:
         if rv is None:
             continue
         ptr = ft.local_at(pl["local"], b, pos)
         val = ft.rvalue(rv, b, pos)
-        if ptr[0] != "call" or not isinstance(ptr[1], str) or not ptr[1].endswith("IndexMut<I>>::index_mut"):
+        if pl["proj"] and pl["proj"][-1]["k"] == "index" and len(pl["proj"]) <= 2 and all(e["k"] == "deref" for e in pl["proj"][:-1]):
+            # the result is a fixed-size array (or a slice) written in place: result[idx] = val
+            idx = ft.local_at(pl["proj"][-1]["local"], b, pos)
+        elif ptr[0] != "call" or not isinstance(ptr[1], str) or not ptr[1].endswith("IndexMut<I>>::index_mut"):
             continue
-        idx = ptr[2][1]
+        else:
+            idx = ptr[2][1]
         # enumerate idiom: idx = *item.1, val = item.0 with item = payload(Some, Enumerate::next(..))
         if idx[0] == "deref" and idx[1][0] == "field" and str(idx[1][2]) == "1" and val[0] == "field" and str(val[2]) == "0":
             if strip_site(idx[1][1]) == strip_site(val[1]) and val[1][0] == "payload":
